@@ -488,10 +488,10 @@ def split_sequences(ops):
     return seqs
 
 
-def eval_seq(ctx, vcorr, seq_lines, cmp_spec=True, time_scale=None):
+def eval_seq(ctx, vcorr, seq_lines, cmp_spec=True, time_scale=None, timeout=None):
     """Run one sequence on impl and model. Returns (index of first divergence | None, impl, model, spec)."""
     env = GOENV if time_scale is None else dict(GOENV, VERIF_TIME_SCALE=str(time_scale))
-    impl, r1 = run_lines([vcorr, "run"], seq_lines, env=env)
+    impl, r1 = run_lines([vcorr, "run"], seq_lines, env=env, timeout=timeout)
     mod, r2 = run_lines(model_bin(), seq_lines)
     for i in range(len(seq_lines)):
         a = impl[i] if i < len(impl) else "<no-output>"
@@ -509,8 +509,11 @@ def time_sensitive(ctx, vcorr, seq_lines, label, orig_op="", orig_impl=""):
     duration stretched four times (VERIF_TIME_SCALE=4: scripted timeouts are stretched alike, so a timer that
     is wrongly armed, never disarmed or never fires still shows): three tries.  Returns True when it does
     not — the case is recorded in the evidence and not reported."""
+    # an operation that was never answered (the implementation hangs): a single sequence takes seconds, so the re-runs
+    # need not wait the whole per-sequence budget for the hang to repeat
+    short = float(os.environ.get("VERIF_HANG_RERUN", "90")) if orig_impl.startswith("<no-output>") else None
     for _ in range(3):
-        d, *_ = eval_seq(ctx, vcorr, seq_lines, time_scale=4)
+        d, *_ = eval_seq(ctx, vcorr, seq_lines, time_scale=4, timeout=short)
         if d is not None:
             return False
     ctx.cov.setdefault("time_sensitive", []).append(
@@ -523,9 +526,12 @@ def time_sensitive(ctx, vcorr, seq_lines, label, orig_op="", orig_impl=""):
 def shrink(ctx, vcorr, seq_lines):
     """greedy minimisation of a diverging sequence (keeps the leading reset line)"""
     cur = list(seq_lines)
-    idx, *_ = eval_seq(ctx, vcorr, cur)
+    idx, impl0, *_ = eval_seq(ctx, vcorr, cur)
     if idx is None:
         return cur
+    # the implementation hangs at the diverging operation: candidates are given a short budget each (a sequence takes
+    # seconds), or minimising would cost the per-sequence budget per candidate
+    short = float(os.environ.get("VERIF_HANG_RERUN", "90")) / 3 if idx >= len(impl0) else None
     cur = cur[:idx + 1]
     budget = 400
     deadline = time.time() + float(os.environ.get("VERIF_SHRINK_SECONDS", "420"))
@@ -537,7 +543,7 @@ def shrink(ctx, vcorr, seq_lines):
             cand = cur[:i] + cur[i + 1:]
             budget -= 1
             if len(cand) >= 1:
-                d, *_ = eval_seq(ctx, vcorr, cand)
+                d, *_ = eval_seq(ctx, vcorr, cand, timeout=short)
                 if d is not None:
                     cur = cand[:d + 1]
                     changed = True
